@@ -19,6 +19,17 @@ class Comment:
 NL = object()
 
 
+class Mark:
+    """zero-width marker: brackets the tokens of one declaration so that its line span is known after layout."""
+
+    def __init__(self, kind):
+        self.kind = kind   # 'begin' | 'end'
+
+
+MARK_BEGIN = Mark('begin')
+MARK_END = Mark('end')
+
+
 class Spelling:
     """Site-level spelling decisions. Default = canonical spelling. With rng, random per site."""
 
@@ -84,11 +95,36 @@ def doc_tokens(f, sp):
     return []
 
 
+def _pair_tokens(keys, pkt, sp):
+    t = []
+    if len(keys) == 1:
+        t += [key_tok(keys[0]), ':', pkt]
+    else:
+        t.append('[')
+        for i, kk in enumerate(keys):
+            if i:
+                t.append(',')
+            t.append(key_tok(kk))
+        t += [']', ':', pkt]
+    t.append(',')
+    return t
+
+
 def key_tok(k):
     return str(k) if isinstance(k, int) else '"%s"' % k
 
 
 def field_tokens(proto, f, sp, allow_attr=True):
+    t = _field_tokens(proto, f, sp, allow_attr)
+    tag = getattr(f, 'tag', None)
+    if tag is not None and allow_attr:
+        t = ['@tag(', str(tag), ')', NL] + t
+    if getattr(f, '_mark', False):
+        t = [MARK_BEGIN] + t + [MARK_END]
+    return t
+
+
+def _field_tokens(proto, f, sp, allow_attr=True):
     rep = ['repeat'] if f.repeat else []
     k = f.kind
     if k == 'meta' and sp.rng is not None and proto is not None and sp.pick('inline_meta'):
@@ -120,7 +156,13 @@ def field_tokens(proto, f, sp, allow_attr=True):
         return t + ['}', ',']
     if k == 'match':
         t = ['match', f.key, 'as', f.name, '{']
-        for keys, pkt in f.pairs:
+        for pi, (keys, pkt) in enumerate(f.pairs):
+            mp = getattr(f, '_mark_pair', None)
+            if mp is not None and mp == pi:
+                t.append(MARK_BEGIN)
+                t += _pair_tokens(keys, pkt, sp)
+                t.append(MARK_END)
+                continue
             if len(keys) > 1 and sp.pick('expand_keylist'):
                 for kk in keys:
                     t += [key_tok(kk), ':', pkt]
@@ -183,10 +225,18 @@ def tokens(proto, sp=None):
         for k in opts:
             if k not in OPTION_ORDER:
                 t += [k, '=', opts[k], ';']
+        for name, value, marked in getattr(proto, 'extra_options', []):
+            if marked:
+                t.append(MARK_BEGIN)
+            t += [name, '=', value, ';']
+            if marked:
+                t.append(MARK_END)
         t += ['}']
     for blk, ents in proto.metadata:
         t += ['MetaData', blk, '{']
         for e in ents:
+            if getattr(e, '_mark', False):
+                t.append(MARK_BEGIN)
             if e.ref is not None:
                 t += [e.ref, e.name]
             else:
@@ -198,11 +248,17 @@ def tokens(proto, sp=None):
             if e.doc:
                 t.append('`%s`' % (e.doc if not (sp.rng is not None and sp.pick('doc_toggle', False)) else e.doc + ' v2'))
             t.append(',')
+            if getattr(e, '_mark', False):
+                t.append(MARK_END)
         t += ['}']
     for p in proto.packets:
+        if getattr(p, '_mark', False):
+            t.append(MARK_BEGIN)
         if p.root:
             t.append('root')
         t += ['packet', p.name, '{']
+        if getattr(p, '_mark', False):
+            t.append(MARK_END)
         for f in p.fields:
             t += field_tokens(proto, f, sp)
         t.append('}')
@@ -249,6 +305,9 @@ def layout(toks, style='pretty', rng=None, eol='\n'):
         col_start = False
 
     for i, tk in enumerate(toks):
+        if isinstance(tk, Mark):
+            lines.append(None)
+            continue
         if tk is NL:
             lines.append(None)
             if style in ('pretty', 'tabs') and not col_start:
@@ -302,7 +361,7 @@ def layout(toks, style='pretty', rng=None, eol='\n'):
             elif tk == '}':
                 nxt = None
                 for z in toks[i + 1:]:
-                    if z is not NL:
+                    if z is not NL and not isinstance(z, Mark):
                         nxt = z
                         break
                 if nxt != ',':
@@ -357,7 +416,7 @@ def render(proto, sp=None, style='pretty', rng=None):
 
 def essential(toks):
     """token texts without layout hints/comments and without grammar-optional separators."""
-    return [t for t in toks if t is not NL and not isinstance(t, Comment)]
+    return [t for t in toks if t is not NL and not isinstance(t, (Comment, Mark))]
 
 
 def insert_comments(toks, rng, p=0.15, counter=None):
@@ -372,4 +431,18 @@ def insert_comments(toks, rng, p=0.15, counter=None):
         if t is not NL and not isinstance(t, Comment) and rng.random() < p / 2:
             n[0] += 1
             out.append(Comment('// t%d trailing' % n[0], own_line=False))
+    return out
+
+
+def marked_lines(toks, lines):
+    """set of line numbers covered by the tokens between MARK_BEGIN and MARK_END."""
+    out = set()
+    inside = False
+    for t, ln in zip(toks, lines):
+        if t is MARK_BEGIN:
+            inside = True
+        elif t is MARK_END:
+            inside = False
+        elif inside and ln is not None:
+            out.add(ln)
     return out
